@@ -66,7 +66,8 @@ TOp ==
                /\ ended' = (ended \/ ev.out = "end")
                /\ lost' = (exp.k = "any" \/ ev.out = "err")
                /\ UNCHANGED viol
-          ELSE /\ viol' = Note([l |-> l, prop |-> IF exp.k = "end" THEN "C05" ELSE "C07",
+          \* a VALUE where the input is exhausted can only come from stale or never-filled buffer bytes: C03 as well
+          ELSE /\ viol' = Note([l |-> l, prop |-> IF exp.k = "end" THEN (IF ev.out = "val" THEN "C05,C03" ELSE "C05") ELSE "C07",
                                 what |-> IF exp.k = "end"
                                          THEN "end of input not reported: operation " \o ev.op \o " returned " \o ev.out
                                          ELSE "operation " \o ev.op \o " on a well-formed item: wrong value or outcome " \o ev.out,
